@@ -35,7 +35,8 @@ try:
             subprocess.run(["coq_makefile", "-f", "_CoqProject", "-o", "Makefile"], cwd=tmp + "/coq", stdout=subprocess.DEVNULL, stderr=subprocess.DEVNULL)
             m = subprocess.run(["timeout", "1500", "make", "-j8", "Properties/%s.vo" % prop], cwd=tmp + "/coq", stdout=subprocess.PIPE, stderr=subprocess.STDOUT, text=True)
             stat = m.returncode != 0
-            statmsg = "Generated.v changed; theorems of %s %s" % (prop, "no longer check: " + m.stdout[-400:] if stat else "still check")
+            errs = [l for l in m.stdout.splitlines() if l.startswith("File ") or l.startswith("Error")]
+            statmsg = "Generated.v changed; theorems of %s %s" % (prop, "no longer check: " + " | ".join(errs[:4]) if stat else "still check")
 finally:
     shutil.rmtree(tmp, ignore_errors=True)
 lines = [l for l in t.splitlines() if l.startswith("PROPFAIL") or l.startswith("DISAGREE") or l.startswith("Counter")][:6]
